@@ -381,7 +381,10 @@ class PEP8Normalizer(ErrorFinder):
         if type_ == 'error_leaf':
             return
 
-        if value == ',' and part.parent.type == 'dictorsetmaker':
+        if value == ',' and part.parent.type == 'dictorsetmaker' \
+                and self._indentation_tos.type == IndentationTypes.IMPLICIT:
+            # Closes the implicit indentation of a dict value. Sets don't
+            # have that.
             self._indentation_tos = self._indentation_tos.parent
 
         node = self._indentation_tos
